@@ -92,7 +92,7 @@ def execute(spec, monitors, staged=None, check_values=True):
         raise out[1]
     # identity of the escaping exception (C02)
     if out[0] == "E" and getattr(B, "root_computed", False) and getattr(B, "root_error", None) is None \
-            and spec["root"].get("conv") != "wrapped":
+            and spec["root"].get("conv") != "wrapped" and not str(getattr(out[1], "tag", "")).startswith("cb:"):
         viol.append(("C01", "escape-without-failure", "the outermost call raised %s although the awaited task completed with a value" % errtok(out[1])))
     if out[0] == "E" and "C02" in monitors:
         te = getattr(B, "root_error", None)
